@@ -76,7 +76,7 @@ def miri_warm(pkg, bin_, log):
 
 
 def build_all(tier, log):
-    ok, msg = cargo_build(["rig_r5", "rig_r9", "rig_misc", "ctor"], log)
+    ok, msg = cargo_build(["rig_r5", "rig_r9", "rig_misc", "ctor", "schedprogs"], log)
     if not ok:
         return ok, msg
     for pkg, b in (("rig_r5", "r5"), ("rig_r9", "r9"), ("rig_misc", "r1")):
@@ -655,6 +655,52 @@ class FaultsPlan(ToolPlan):
         return jobs
 
 
+class SchedPlan(ToolPlan):
+    """C07 / C08 / C12 share the generated schedule programs; each check filters its own property."""
+
+    def __init__(self, prop, **kw):
+        super().__init__(prop, ["schedprogs"], **kw)
+
+    def programs(self, ctx):
+        bindir = os.path.join(ROOT, "schedprogs", "src", "bin")
+        if ctx.tier == "thorough":
+            # additional programs from VERIF_SEED (not committed; see .gitignore)
+            subprocess.run(["python3", os.path.join(ROOT, "gen", "gen_sched.py"), str(1000 + ctx.seed), "24", bindir, "sched_t"], check=True)
+        else:
+            for f in os.listdir(bindir):
+                if f.startswith("sched_t"):
+                    os.remove(os.path.join(bindir, f))
+        return sorted(f[:-3] for f in os.listdir(bindir) if f.endswith(".rs"))
+
+    def build(self, ctx):
+        self.progs = self.programs(ctx)
+        return cargo_build(["schedprogs"], ctx.log)
+
+    def evaluations(self, acc):
+        return int(acc.get("cases", 0))
+
+    def distinct(self, acc):
+        return len(acc.get("dag_shapes_set", ())) + len(acc.get("start_orders_set", ()))
+
+    def jobs(self, ctx):
+        quick = ctx.tier == "quick"
+        jobs = []
+        for i, p in enumerate(self.progs):
+            out = os.path.join(ctx.scratch, f"{p}.json")
+            jobs.append(dict(name=p, kind="native", argv=[os.path.join(TARGET, "release", p), "run", "--seed", str(ctx.seed * 31 + i), "--worlds", "30" if quick else "300", "--out", out], out=out, timeout=900 if quick else 5400))
+            if not quick:
+                out2 = os.path.join(ctx.scratch, f"{p}-pools.json")
+                jobs.append(dict(name=p + "-pools", kind="native", argv=[os.path.join(TARGET, "release", p), "run", "--seed", str(ctx.seed * 37 + i), "--worlds", "150", "--pools-only", "1", "--jitter", "20", "--out", out2], out=out2, timeout=5400))
+        if self.prop == "C12":
+            # bounded-progress probes: run_schedule must return on pools of 1, 2 and 16 threads
+            for i, p in enumerate(self.progs):
+                for pool in (0, 1, 5):
+                    out = os.path.join(ctx.scratch, f"{p}-term-{pool}.json")
+                    jobs.append(dict(name=f"{p}-term-pool{pool}", kind="term", argv=["python3", os.path.join(ROOT, "lib", "run_term.py"), out, os.path.join(TARGET, "release", p), "term", "--pool", str(pool), "--kind", str(1 + (i + pool) % 4), "--seed", str(ctx.seed + i)],
+                                     out=out, timeout=600))
+        return jobs
+
+
 class CtorPlan(ToolPlan):
     def jobs(self, ctx):
         out = os.path.join(ctx.scratch, "ctor.json")
@@ -677,6 +723,21 @@ PLANS = {
                    what="allocator audit (layout of every dealloc/realloc, double free, unknown free, bytes returned at end of history), self-checking payloads (tag, checksum, alignment, heap bytes), Miri (OOB, dangling, uninit, invalid value, layout, leak), ASan/LSan in thorough"),
     "C06": SeqPlan("C06", ["serde"], ALL_RIGS, quick=(5, 120, 300), thorough=(8, 1500, 400), miri_quick=4, miri_thorough=16, miri_profile="serde", miri_ops=30,
                    what="serde_json (row-wise) and serde_assert tokens (readable + compact/column-wise) round trips at random points: ==, structure dump, then lock-step continuation of original and copy with return values compared"),
+    "C07": SchedPlan("C07", floor=1000,
+                     what="generated schedule programs (2-6 System/ParSystem tasks over R5 with random views, filters, resource views, entry views; deterministic order-sensitive bodies): run_schedule under the hooked fork/join shim (every join serial a;b, b;a and seeded "
+                          "random orders) and on rayon pools of 1/2/3/4/8/16 threads vs run_system/run_par_system one by one on a clone: world, resources, per-system state, run counters",
+                     rule="a case is one run of one schedule program on one seeded world in one execution mode; distinct = distinct (program, world kind, pairwise parallel/ordered relation of the tasks) and distinct task start orders observed",
+                     assumptions=["system bodies are deterministic, order-sensitive across tasks and order-insensitive across entities (bvh/src/sched.rs)", "program family bounded by compile cost (about 10 s per task per program); evidence lists task counts and stage structures"]),
+    "C08": SchedPlan("C08", floor=1000,
+                     what="same runs as C07; every task logs its strand path in the fork/join tree (join hook) and its reach set: address+mode of every item its iterator yields, every resource view, and everything its entry views return for every entity id; "
+                          "two tasks are logically parallel iff their paths first differ in the branch of the same join; a logically parallel pair with a common address, one side mutable, is a violation for all interleavings of that DAG",
+                     rule="as C07; evidence counts logically parallel pairs examined and early-started pairs (parallel although the static grouping separates them)",
+                     assumptions=["fork/join structure is observed exactly through the join shim (the only concurrency primitive in stage.rs)", "zero-sized components are exempt (no memory)", "reach through entry views is probed with one sub-view query per declared entry view and entity"]),
+    "C12": SchedPlan("C12", floor=300,
+                     what="on empty worlds (no early starts, so the fork/join DAG is the static staging) every pair of tasks that a greedy in-order grouping by declared access (views, entry views, resource views; mutable-vs-any conflict) puts in one group must be logically parallel; "
+                          "bounded progress: run_schedule returns on rayon pools of 1, 2 and 16 threads within a 120 s watchdog (ms typical), a timeout must reproduce twice to count",
+                     rule="as C07; evidence counts same-group pairs checked and termination probes completed",
+                     assumptions=["liveness is restated as bounded progress (watchdog >= 1000x typical run time, reproduced twice)", "the reference grouping considers declared access only, not filters"]),
     "C09": SeqPlan("C09", ["par"], ["r5", "r9", "r1"], quick=(6, 100, 250), thorough=(8, 1200, 300), miri_quick=6, miri_thorough=24, miri_profile="par", miri_ops=40, miri_flags="-Zmiri-ignore-leaks", floor_ops=20000,
                    what="par_query (for_each, map+collect, count, any, find_map_any), run_par_system and run_system over the generated view/filter family on rayon pools of 1/2/3/4/8/16 threads with jitter: multiset of results vs model (= sequential query), "
                         "each entity once, no two results sharing a mutably viewed address, writes land on that entity only; same code under Miri's data-race detector"),
